@@ -30,10 +30,11 @@ const (
 	sBetweenGenerations
 	sSelectRejected
 	sClosing // a graceful Close whose courtesy Separate is stalled by the peer: NotConnected, socket still open
+	sClosedIdle // Close issued while NotConnected (listening / dialing) at the instant a TCP connection completes
 	nSituations
 )
 
-var sitNames = []string{"never-opened", "closed", "connecting", "connected-not-selected", "deselected", "between-generations", "select-rejected", "closing-with-stalled-farewell"}
+var sitNames = []string{"never-opened", "closed", "connecting", "connected-not-selected", "deselected", "between-generations", "select-rejected", "closing-with-stalled-farewell", "closed-while-a-connection-completes"}
 
 // send entry points
 const (
@@ -123,6 +124,9 @@ type harness struct {
 	barrierSys    uint32
 	windowOpenAt  time.Duration
 	closedOnce    bool
+	deselTx       *refhsms.TxFrame // the peer's stream that ends with the Deselect.req leaving the session deselected
+	queuedAsync   int
+	windowEndAt   time.Duration
 	closingData   int
 	reopened      bool
 	finalBarrier  uint32
@@ -379,6 +383,59 @@ func (h *harness) setup() {
 				w.After(time.Millisecond, "window", openWindow)
 			})
 		})
+	case sClosedIdle:
+		// the connection is closed while it is still NotConnected, exactly when the first TCP connection
+		// completes (passive: a peer connects and selects; active: the dial returns and the peer would
+		// answer the select): the late connection must not bring a closed connection to life
+		lat := time.Duration(2+w.T.Choose("scn", 8)) * time.Millisecond
+		off := []time.Duration{-time.Millisecond, 0, 0, time.Millisecond}[w.T.Choose("scn", 4)]
+		if sc.Active {
+			r.N.DialPlan = func(attempt int, address string) simnet.DialOutcome {
+				return simnet.DialOutcome{Latency: lat}
+			}
+		}
+		r.Open(hsms.OpenBackground)
+		closeIt := func() {
+			w.Go("closer", func() {
+				for errors.Is(r.C.Close(), hsms.ErrNotOpen) {
+					core.Sleep(time.Millisecond) // Close won the race against Open itself: nothing was open yet
+				}
+				h.closedOnce = true
+			})
+		}
+		if sc.Active {
+			h.establishing = true // the peer answers the select of the late connection, if one is sent
+			w.After(lat+off, "close-at-dial-completion", closeIt)
+		} else {
+			var try func()
+			try = func() {
+				if r.N.Listening(rig.Addr) {
+					w.After(lat+off, "close-at-accept", closeIt)
+					w.After(lat, "late-peer", func() {
+						if w.T.Choose("scn", 2) == 1 {
+							// the accepting goroutine is held with the connection in hand while Close runs
+							w.HoldAt["net.Accept.ret"] = time.Duration(1+w.T.Choose("scn", 20)) * time.Millisecond
+						}
+						if c := r.P.Connect(rig.Addr); c != nil {
+							c.SendFrame(refhsms.Header{Session: sc.Session, SType: refhsms.STSelectReq, Sys: r.P.NextSys()}, nil)
+						}
+					})
+
+					return
+				}
+				w.After(time.Millisecond, "peer-connect", try)
+			}
+			w.After(0, "peer-connect", try)
+		}
+		h.when(func() bool { return h.closedOnce }, func() {
+			w.Probe("closed_while_a_connection_completes")
+			if n := len(r.P.Conns); n > 0 {
+				w.Probe("late_connection_reached_the_peer_side")
+			}
+			h.establishing = false
+			h.pendingSel = nil
+			w.After(3*time.Millisecond, "window", openWindow)
+		})
 	case sConnecting:
 		if sc.Active {
 			r.N.DialPlan = func(attempt int, address string) simnet.DialOutcome {
@@ -430,7 +487,38 @@ func (h *harness) setup() {
 			}
 			sys := r.P.NextSys()
 			stream = append(stream, refhsms.Frame(refhsms.Header{Session: sc.Session, SType: refhsms.STDeselectReq, Sys: sys}, nil)...)
-			c.SendRaw(stream, refhsms.Header{}, nil, true)
+			sendDeselect := func() {
+				c.SendRaw(stream, refhsms.Header{}, nil, true)
+				h.deselTx = c.Tx[len(c.Tx)-1]
+			}
+			if w.T.Choose("scn", 2) == 1 {
+				// asynchronous sends accepted while Selected queue up behind a writer the peer has stalled;
+				// the Deselect.req overtakes them: when the writer moves again they meet the write-boundary
+				// gate and must not be written
+				w.Fault("sndfull")
+				c.L.SetCap(8)
+				c.L.Stall(false, 25*time.Millisecond)
+				k := 2 + w.T.Choose("scn", 4)
+				w.After(time.Millisecond, "queue-async", func() {
+					w.Go("queuer", func() {
+						for i := 0; i < k; i++ {
+							var err error
+							if i%2 == 0 {
+								err = r.C.SendDataMessageAsync(context.Background(), 1, 5, false, secs2.A(fmt.Sprintf("queued%d", i)))
+							} else {
+								m, _ := hsms.NewDataMessage(4, 1, false, sc.Session, [4]byte{0x61, 0, 0, byte(i)}, secs2.A(fmt.Sprintf("queued%d", i)))
+								err = r.C.ForwardDataMessageAsync(context.Background(), m)
+							}
+							if err == nil {
+								h.queuedAsync++
+							}
+						}
+					})
+				})
+				w.After(4*time.Millisecond, "peer-deselect", sendDeselect)
+			} else {
+				sendDeselect()
+			}
 			h.when(func() bool {
 				for _, f := range c.Rx {
 					if f.H.SType == refhsms.STDeselectRsp && f.H.Sys == sys {
@@ -675,6 +763,10 @@ func (h *harness) sender(si int, specs []callSpec) {
 		c.TRet = w.Now()
 		c.Err, c.Reply, c.Done = err, rep != nil, true
 		c.Strict = pre != hsms.SelectedState && post != hsms.SelectedState && h.selEntries == entries0
+		if (h.sc.Sit == sClosed || h.sc.Sit == sClosing || h.sc.Sit == sClosedIdle) && h.phase == 1 {
+			// between Close returning and the reopen the connection is closed whatever State() claims
+			c.Strict = true
+		}
 		w.Logf("call %s end err=%v strict=%v", c.ID, err, c.Strict)
 		if !c.Strict {
 			w.Probe("call_overlapped_selected")
@@ -716,6 +808,7 @@ func (h *harness) endWindow() {
 		return
 	}
 	h.dropEnd = r.C.Metrics().DataMsgDropNotSelectedCount()
+	h.windowEndAt = w.Now()
 	allStrict := true
 	for _, c := range h.calls {
 		if !c.Strict {
@@ -766,7 +859,7 @@ func (h *harness) establish() {
 	switch sc.Sit {
 	case sNeverOpened:
 		r.Open(hsms.OpenBackground)
-	case sClosed, sClosing:
+	case sClosed, sClosing, sClosedIdle:
 		w.Go("reopen", func() {
 			if err := r.C.Open(context.Background(), hsms.OpenBackground); err != nil {
 				w.Fail("REOPEN", "Open after Close failed: %v", err)
@@ -837,6 +930,29 @@ func (h *harness) final(reason string) {
 			h.phase, reason, r.C.State(), sitNames[sc.Sit])
 
 		return
+	}
+	// ---- 0. deselected by the peer: from the instant the Deselect.req reached the library until the
+	// window ended no data frame may have been STARTED on the wire (one whose first byte was already
+	// out when the session ended may finish)
+	if h.deselTx != nil && h.deselTx.DeliveredAt() >= 0 && h.windowEndAt > 0 {
+		from := h.deselTx.DeliveredAt()
+		c := h.deselTx.C
+		for _, f := range c.Rx {
+			if f.H.PType != 0 || f.H.SType != refhsms.STData {
+				continue
+			}
+			start := f.EndOff - (14 + len(f.Body))
+			ws := c.L.ToPeer().WrittenAt(start + 1)
+			if ws > from && ws < h.windowEndAt {
+				tok, _ := refhsms.ParseASCII(f.Body)
+				w.Fail("DATA_WHILE_NOT_SELECTED", "the library began to write data frame %s (%q) at %v; the peer's Deselect.req had reached it at %v and the session was not selected again before %v (%d asynchronous sends had been accepted while Selected and were queued behind a stalled writer)", f.H, tok, ws, from, h.windowEndAt, h.queuedAsync)
+
+				return
+			}
+		}
+		if h.queuedAsync > 0 {
+			w.Probe("queued_async_sends_met_the_write_boundary_gate")
+		}
 	}
 	// ---- 1. nothing refused ever reaches any generation's wire (queue-then-flush)
 	refused := map[string]*call{}
